@@ -110,6 +110,14 @@ func genFan(t *rapid.T) *gkit.Spec {
 		if !wf {
 			n.OutputKey = key
 		}
+		if route != 3 && i == 0 && m >= 2 && rapid.IntRange(0, 3).Draw(t, "errItem") == 0 {
+			// this producer's stream carries an error item after some chunks (the others keep producing)
+			n.Fault = "streamerr"
+			n.Para = []string{"IS", "S", "IT", "T"}[rapid.IntRange(0, 3).Draw(t, "errPara")]
+			if n.Chunks < 2 {
+				n.Chunks = 2
+			}
+		}
 		sp.Nodes = append(sp.Nodes, n)
 		sp.Edges = append(sp.Edges, gkit.Edge{From: "start", To: key})
 		toEnd := gkit.Edge{From: key, To: "end"}
@@ -172,7 +180,8 @@ func genC19(t *rapid.T) CaseC19 {
 			forcePrefix(t, c.Spec)
 		}
 		c.Input = gkit.GenInput(t, c.Spec.In)
-		ref := gkit.Ref(c.Spec, "", fixInput(c.Spec, c.Input), gkit.RefOpts{})
+		clean, _ := stripStreamErr(c.Spec)
+		ref := gkit.Ref(clean, "", fixInput(c.Spec, c.Input), gkit.RefOpts{})
 		if ref.Fail == "" && !ref.Ambiguous && !ref.Leftover {
 			break
 		}
@@ -377,7 +386,9 @@ func checkC19(c CaseC19) (*vkit.Failure, vkit.Meta) {
 		ctx, cancel := context.WithCancel(context.Background())
 		defer cancel()
 		in := fixInput(c.Spec, c.Input)
-		ref := gkit.Ref(c.Spec, "", in, gkit.RefOpts{})
+		// an error item in a stream is data for this property: the domain is decided on the graph without it
+		clean, errItem := stripStreamErr(c.Spec)
+		ref := gkit.Ref(clean, "", in, gkit.RefOpts{})
 		inScope := ref.Fail == "" && !ref.Ambiguous && !ref.Leftover
 		r, err := gkit.Compile(ctx, c.Spec, nil)
 		if err != nil {
@@ -437,6 +448,11 @@ func checkC19(c CaseC19) (*vkit.Failure, vkit.Meta) {
 			settle(base, env.Prod)
 			return nil
 		}
+		if errItem && err == nil && rerr != nil {
+			// the caller met the error item and closed the stream: everything must be released as after any early close
+			m.Labels = append(m.Labels, "caller-stopped-at-error-item")
+			rerr = nil
+		}
 		if err != nil || rerr != nil {
 			// the run itself failed although the model says it succeeds: C01/C02's business
 			m.Labels = append(m.Labels, "run-failed")
@@ -481,6 +497,28 @@ func checkC19(c CaseC19) (*vkit.Failure, vkit.Meta) {
 		return nil
 	})
 	return f, m
+}
+
+// stripStreamErr returns a copy of the spec without streamerr faults and whether there was one.
+func stripStreamErr(sp *gkit.Spec) (*gkit.Spec, bool) {
+	b, _ := json.Marshal(sp)
+	var cp gkit.Spec
+	_ = json.Unmarshal(b, &cp)
+	found := false
+	var walk func(s *gkit.Spec)
+	walk = func(s *gkit.Spec) {
+		for i := range s.Nodes {
+			if s.Nodes[i].Fault == "streamerr" {
+				s.Nodes[i].Fault = ""
+				found = true
+			}
+			if s.Nodes[i].Sub != nil {
+				walk(s.Nodes[i].Sub)
+			}
+		}
+	}
+	walk(&cp)
+	return &cp, found
 }
 
 func hasPrefixBranch(sp *gkit.Spec) bool {
